@@ -12,6 +12,7 @@ import (
 	"hash"
 	"reflect"
 	"sort"
+	"sync"
 	"time"
 	"unsafe"
 )
@@ -265,10 +266,12 @@ func (rw *regionWalker) walk(v reflect.Value, path string, via bool) {
 	}
 }
 
-var indirCache = map[reflect.Type]bool{}
+var (
+	indirMu    sync.Mutex
+	indirCache = map[reflect.Type]bool{}
+)
 
-// hasIndirection reports whether values of t can reach memory outside themselves. (Not concurrency-safe
-// on its own; callers hold indirMu.)
+// hasIndirection reports whether values of t can reach memory outside themselves.
 func hasIndirection(t reflect.Type) bool {
 	indirMu.Lock()
 	r, ok := indirCache[t]
